@@ -4,6 +4,9 @@
 
 #include "src/std.h"
 #include "src/comm.h"
+#include "src/backend.h"
+#include "rc.h"
+#include "lpc/include/runtime_config.h"
 #include "lpc/array.h"
 #include "lpc/object.h"
 #include "lpc/include/origin.h"
@@ -243,6 +246,11 @@ call_out ()
                       }
 #endif
                     /* current object no longer set */
+
+                    /* Every call_out is an execution thread of its own, like a
+                     * heart_beat(): it gets the whole evaluation budget, not what
+                     * the call_outs before it in this sweep have left over. */
+                    eval_cost = CONFIG_INT (__MAX_EVAL_COST__);
 
                     if (cop->vs)
                       {
